@@ -32,7 +32,8 @@ func deviceRoots(c *Ctx, dv *dev) (*lockAnalysis, bool) {
 			}
 			return out
 		}
-		return nil
+		// a handler taken from a read-only dispatch table of the package
+		return roTableTargets(c.P, cc.Value)
 	}
 	pe := dv.fn["ProcessEvents"]
 	// T0: the part of ProcessEvents that runs while the helpers may run: reachable from a `go`
